@@ -90,7 +90,7 @@ class FakeStatus:
         if not ok:
             self._exc = DeviceError(f"status-failed:{self.label}")
             self.ctx.status_excs.append(self._exc)
-        self.ctx.timeline.append(("status", self.label, ok))
+        self.ctx.timeline.append(("status", self.label, ok, getattr(self, "op_index", None)))
         if self.on_finish is not None:
             self.on_finish(ok)
         cbs, self._cbs = self._cbs, []
@@ -105,6 +105,7 @@ def make_status(ctx, label, policy, fault=None, on_finish=None):
     """policy: ('now',) | ('delay', d) | ('manual',).  fault: None | 'fail' | 'fail_late'."""
     st = FakeStatus(ctx, label)
     ctx.results[ctx.last_op] = st
+    st.op_index = ctx.last_op
     st.on_finish = on_finish
     ok = fault is None
     kind = policy[0]
@@ -247,7 +248,7 @@ class FakeMotor(_Base):
         return [self]
 
     def _unstage(self):
-        self.ctx.op(self, "unstage", fallible=False)
+        self.ctx.op(self, "unstage")  # may be made to raise by the fault plan
         return [self]
 
 
@@ -320,7 +321,7 @@ class FakeDet(_Base):
         return [self]
 
     def _unstage(self):
-        self.ctx.op(self, "unstage", fallible=False)
+        self.ctx.op(self, "unstage")  # may be made to raise by the fault plan
         return [self]
 
     def _pause(self):
